@@ -82,18 +82,45 @@ def is_rcall_fail(f, kinds):
 def is_val(f, pred, val):
     return f is not None and f[0] == 'val' and f[1] == pred and f[2] == val
 
+def alternatives(e, table, aborts_table):
+    """the tables are keyed by predicate, not by whether the refusal is an `Err` or a panic: `x.unwrap()` <-> `x?`,
+    `a - b` (panicking) <-> `a.checked_sub(b)?` are the same refusal. Yields (table, entry-view) pairs to try."""
+    if e['kind'] == 'err':
+        yield table, e
+        f = e['fact']
+        if f is not None and f[0] == 'is' and f[2] in ('Err', 'None'):
+            v = dict(e); v['kind'] = 'abort'; v['fact'] = None; v['abort'] = ('unwrap', f[1]); v['key'] = 'unwrap(%s)' % K(f[1])
+            yield aborts_table, v
+            if f[1][0] == 'rcall' and f[1][1] in ('checked_sub', 'checked_add') and len(f[1][2]) == 2:
+                v2 = dict(v); v2['abort'] = ('uint_Sub' if f[1][1] == 'checked_sub' else 'uint_Add', f[1][2][0], f[1][2][1]); v2['key'] = '%s(%s)' % (v2['abort'][0], ', '.join(K(x) for x in f[1][2]))
+                yield aborts_table, v2
+    else:
+        yield aborts_table, e
+        a = e.get('abort')
+        if a and a[0] == 'unwrap' and len(a) > 1:
+            for res in ('Err', 'None'):
+                v = dict(e); v['kind'] = 'err'; v['fact'] = ('is', a[1], res)
+                yield table, v
+        if a and a[0] in ('uint_Sub', 'uint_Add') and len(a) == 3:
+            kind = 'checked_sub' if a[0] == 'uint_Sub' else 'checked_add'
+            for res in ('Err', 'None'):
+                v = dict(e); v['kind'] = 'err'; v['fact'] = ('is', ('rcall', kind, (a[1], a[2])), res)
+                yield table, v
+
 def check_table(eng, prop, refs, variant, table, aborts_table, what):
     """every refusal of `variant` must match an entry of `table` (list of (name, class, matcher(entry)->bool)).
     Returns dict name -> count of matched sites."""
     matched = collections.Counter()
+    def try_tables(e):
+        for tbl, ent in alternatives(e, table, aborts_table):
+            for name, cls, m in tbl:
+                try:
+                    if m(ent): return (name, cls)
+                except Exception:
+                    continue
+        return None
     for e in refs.of(variant):
-        tbl = table if e['kind'] == 'err' else aborts_table
-        hit = None
-        for name, cls, m in tbl:
-            try:
-                if m(e): hit = (name, cls); break
-            except Exception:
-                continue
+        hit = try_tables(e)
         ok = hit is not None
         if ok: matched[hit[0]] += 1
         eng.ob(ok, prop, 'refusal', '%s:%s:%s' % (variant, e['kind'], e['key'][:300]),
